@@ -253,16 +253,27 @@ def monitor (cfgF : Fields) (ops : List (Nat × Fields)) : String :=
       let woiEvict : Option String :=
         if woi && op = "evict" && quiet && w > 0 then some (fail "C12" "write_on_insertion_wrote_at_eviction" s!"{w} bytes") else none
       -- C15: graceful close
+      -- bytes written to block partitions, not counting all-zero pages (block cleaning by the reclaimer, e.g. the
+      -- reclaim a recovered device without a clean block starts while it is being opened)
+      let firstBlock := if tomb then 1 else 0
+      let wNonZero : Nat := ((listOf (getD f "wlog" "-")).filterMap fun t =>
+        match t.splitOn ":" with
+        | [p, _, len] => (match p.toNat?, len.toNat? with
+            | some p, some l => if p ≥ firstBlock then some l else none
+            | _, _ => none)
+        | _ => none).foldl (· + ·) 0
       let closeFail : Option String :=
         if op = "reopen" && getD f "early" "0" = "1" then
           some (fail "C15" "close_returned_before_device_writes_completed" "close() returned while the device writes of a flusher batch were still outstanding")
         else if op = "reopen" && idHash then
-          if foc && !woi then
+          -- (on a device small enough for block reclaim the disk's own capacity eviction may have removed the copy:
+          -- outside the claim)
+          if foc && !woi && !lossy then
             (st.prevMem.find? fun x => let (a, b) := aGet st.advice x; !(a && !b) && !a && !disk.contains x &&
                 !(st.big.contains ((tGet st.truth x).getD 0))).map fun x =>
               fail "C15" "resident_entry_not_persisted_by_close" s!"key {x} was resident before close(flush_on_close) and is not on disk after reopen"
-          else if !foc && !woi && quiet && w > 0 && st.prevMem.isEmpty then
-            some (fail "C15" "close_without_flush_wrote" s!"{w} bytes")
+          else if !foc && !woi && quiet && wNonZero > 0 && st.prevMem.isEmpty then
+            some (fail "C15" "close_without_flush_wrote" s!"{wNonZero} bytes")
           else none
         else none
       -- C15: what a flushing close persisted must come back with exactly that version
